@@ -1,21 +1,21 @@
 //! C03 swap cases: two buffers of the same curated type, `mem::swap` of two same-typed pointer objects
 //! taken from them through safe public API, and the expectation that the framework panics no later than
 //! the end of each affected exclusive borrow. See notes/unsized_ops_c03.md §2.
-use crate::access::{Access, Backing};
+use crate::access::Backing;
 use crate::model::{self, Kind, MOut};
 use crate::node::{class_of, Holder, Level, Node, Out};
 use crate::ops::{parse_op, Op};
-use crate::run::{acc_str, check_trace, serialize, start_trace, take_trace, CaseOut, Cx, GenView, Header, OpSource};
+use crate::run::{acc_str, check_trace, serialize, start_trace, take_trace, top_range, Acc, CaseOut, Cx, GenView, Header, OpSource};
 use crate::sexp::{nav, nav_step, parse_path, Nav, Shape, Step, Val};
 use hx_common::catch;
 use star_frame::unsize::wrapper::{ExclusiveWrapper, ExclusiveWrapperTopMeta};
 
-struct Buf {
+struct Buf<B: Backing> {
     name: char,
-    access: &'static Access,
+    access: &'static B,
     // `stack` is declared before `_access_box`: accessors go first, the backing store last
     stack: Vec<Box<dyn Level>>,
-    _access_box: Box<Access>,
+    _access_box: Box<B>,
     levels: Vec<Vec<Step>>,
     model: Val,
     /// the borrow is over (ended, or panicked)
@@ -26,9 +26,9 @@ struct Buf {
     dead: bool,
 }
 
-fn new_top<T: Node + ?Sized>(access: &'static Access, stack: &mut Vec<Box<dyn Level>>) -> Result<(), String> {
-    let top = ExclusiveWrapper::<'static, 'static, T::Ptr, ExclusiveWrapperTopMeta<'static, T, Access>>::new(access).map_err(class_of)?;
-    stack.push(Box::new(Holder::<T, ExclusiveWrapperTopMeta<'static, T, Access>>(top)));
+fn new_top<T: Node + ?Sized, B: Backing>(access: &'static B, stack: &mut Vec<Box<dyn Level>>) -> Result<(), String> {
+    let top = ExclusiveWrapper::<'static, 'static, T::Ptr, ExclusiveWrapperTopMeta<'static, T, B::A>>::new(access.da()).map_err(class_of)?;
+    stack.push(Box::new(Holder::<T, ExclusiveWrapperTopMeta<'static, T, B::A>>(top)));
     Ok(())
 }
 
@@ -43,14 +43,12 @@ fn drop_stack(stack: &mut Vec<Box<dyn Level>>) -> bool {
     panicked
 }
 
-impl Buf {
-    fn make<T: Node + ?Sized>(name: char, init: Val, end_aligned: bool) -> Option<Buf> {
-        let (bytes, _) = serialize::<T>(&init).ok()?;
-        let access_box = Box::new(Access::new_guard(&bytes, vec![], end_aligned));
+impl<B: Backing> Buf<B> {
+    fn make<T: Node + ?Sized>(name: char, init: Val, access_box: Box<B>) -> Option<Buf<B>> {
         // SAFETY: `stack` is emptied (drop_stack) before `_access_box` is dropped, see `finish`.
-        let access: &'static Access = unsafe { &*(&*access_box as *const Access) };
+        let access: &'static B = unsafe { &*(&*access_box as *const B) };
         let mut stack = vec![];
-        match catch(|| new_top::<T>(access, &mut stack)) {
+        match catch(|| new_top::<T, B>(access, &mut stack)) {
             Ok(Ok(())) => {}
             _ => return None,
         }
@@ -59,7 +57,13 @@ impl Buf {
 }
 
 /// Execute one op line on a buffer BEFORE any swap: full C03 answer and gates, model kept in step.
-fn pre_swap_line<T: Node + ?Sized>(b: &mut Buf, shape: &Shape, rest: &str, fails: &mut Vec<(&'static str, String)>) -> String {
+fn pre_swap_line<T: Node + ?Sized, B: Backing>(
+    b: &mut Buf<B>,
+    shape: &Shape,
+    rest: &str,
+    fails: &mut Vec<(&'static str, String)>,
+    deferred: &mut Vec<(&'static str, String)>,
+) -> String {
     if b.finished || b.dead {
         return "dead".into();
     }
@@ -134,7 +138,7 @@ fn pre_swap_line<T: Node + ?Sized>(b: &mut Buf, shape: &Shape, rest: &str, fails
                 while let Some(l) = stack.pop() {
                     drop(l);
                 }
-                match new_top::<T>(access, stack) {
+                match new_top::<T, B>(access, stack) {
                     Ok(()) => Out::ok(),
                     Err(c) => Out::Err(c),
                 }
@@ -143,6 +147,10 @@ fn pre_swap_line<T: Node + ?Sized>(b: &mut Buf, shape: &Shape, rest: &str, fails
         }
     });
     let trace = take_trace(b.access.base_addr());
+    {
+        let rs: Vec<(usize, usize)> = trace.iter().filter_map(|a| if let Acc::Realloc { old, new, .. } = a { Some((*old, *new)) } else { None }).collect();
+        b.access.note_trace(&rs);
+    }
     let out = match exec {
         Ok(o) => o,
         Err(msg) => {
@@ -200,11 +208,23 @@ fn pre_swap_line<T: Node + ?Sized>(b: &mut Buf, shape: &Shape, rest: &str, fails
     } else if !frame {
         fails.push(("frame_modified", format!("{} {rest}", b.name)));
     }
-    format!("{oc} len={len_after} acc={} frame={}", acc_str(&trace), frame as u8)
+    let mut rng = String::new();
+    if matches!(plan, Plan::Reborrow) && matches!(out, Out::Ok(_)) {
+        if let Some((txt, viol)) = top_range(&b.stack, b.access) {
+            rng = txt;
+            // not fatal for the case: what a wrong range MEANS for the property (an undetected swap, an
+            // out-of-allocation access) is what the rest of the case is there to show; reported at the end
+            // of the case if nothing else was
+            if let Some((class, detail)) = viol {
+                deferred.push((class, format!("{} {rest}: {detail}", b.name)));
+            }
+        }
+    }
+    format!("{oc} len={len_after} acc={} frame={}{rng}", acc_str(&trace), frame as u8)
 }
 
 /// Execute one op line on a buffer AFTER a swap: `panic` / `panic@drop` / `cont` / `bad-op` / `dead`.
-fn post_swap_line<T: Node + ?Sized>(b: &mut Buf, rest: &str) -> String {
+fn post_swap_line<T: Node + ?Sized, B: Backing>(b: &mut Buf<B>, rest: &str) -> String {
     if b.finished {
         return "dead".into();
     }
@@ -243,7 +263,7 @@ fn post_swap_line<T: Node + ?Sized>(b: &mut Buf, rest: &str) -> String {
                     drop_panicked = true;
                     return Out::ok();
                 }
-                match new_top::<T>(access, stack) {
+                match new_top::<T, B>(access, stack) {
                     Ok(()) => Out::ok(),
                     Err(c) => Out::Err(c),
                 }
@@ -274,14 +294,20 @@ fn post_swap_line<T: Node + ?Sized>(b: &mut Buf, rest: &str) -> String {
     }
 }
 
-pub fn run_swap_case<T: Node + ?Sized>(header_line: &str, hdr: &Header, src: &mut dyn OpSource, cx: &mut Cx) -> CaseOut {
+pub fn run_swap_case<T: Node + ?Sized, B: Backing>(header_line: &str, hdr: &Header, src: &mut dyn OpSource, cx: &mut Cx) -> CaseOut {
     cx.rec.case(header_line);
     cx.journal_case(header_line);
     let mut out = CaseOut { lines: vec![header_line.to_string()], ..Default::default() };
     let shape = T::shape();
     let parse_init = |t: &Option<crate::sexp::Tok>| t.as_ref().and_then(|t| Val::from_tok(&shape, t)).filter(|v| v.wf(&shape));
     let bufs = match (parse_init(&hdr.init), parse_init(&hdr.init_b)) {
-        (Some(a), Some(b)) => Buf::make::<T>('A', a, hdr.end_aligned).zip(Buf::make::<T>('B', b, hdr.end_aligned)),
+        (Some(a), Some(b)) => match (serialize::<T>(&a), serialize::<T>(&b)) {
+            (Ok((ba, _)), Ok((bb, _))) => match B::create_pair(&ba, &bb, hdr.end_aligned) {
+                Some((xa, xb)) => Buf::<B>::make::<T>('A', a, xa).zip(Buf::<B>::make::<T>('B', b, xb)),
+                None => None,
+            },
+            _ => None,
+        },
         _ => None,
     };
     let dummy = Val::Rem(vec![]);
@@ -298,6 +324,12 @@ pub fn run_swap_case<T: Node + ?Sized>(header_line: &str, hdr: &Header, src: &mu
     };
     let mut swaps = 0u32;
     let mut fails: Vec<(&'static str, String)> = vec![];
+    let mut deferred: Vec<(&'static str, String)> = vec![];
+    for (name, viol) in [('A', top_range(&a.stack, a.access)), ('B', top_range(&b.stack, b.access))] {
+        if let Some((_, Some((class, detail)))) = viol {
+            deferred.push((class, format!("{name} first borrow: {detail}")));
+        }
+    }
     let mut n = 0usize;
     while let Some(line) = src.next(&gv(n)) {
         n += 1;
@@ -310,9 +342,9 @@ pub fn run_swap_case<T: Node + ?Sized>(header_line: &str, hdr: &Header, src: &mu
             let buf = if line.starts_with('A') { &mut a } else { &mut b };
             cx.rec.bump(if swaps == 0 { "swapcase:pre_swap_line" } else { "swapcase:post_swap_line" });
             if swaps == 0 {
-                pre_swap_line::<T>(buf, &shape, rest, &mut fails)
+                pre_swap_line::<T, B>(buf, &shape, rest, &mut fails, &mut deferred)
             } else {
-                post_swap_line::<T>(buf, rest)
+                post_swap_line::<T, B>(buf, rest)
             }
         } else if let Some(rest) = line.strip_prefix("swap ") {
             let parts: Vec<&str> = rest.split(' ').collect();
@@ -399,7 +431,7 @@ pub fn run_swap_case<T: Node + ?Sized>(header_line: &str, hdr: &Header, src: &mu
     } else if swaps > 1 {
         cx.rec.bump("swapcase:multi_swap_no_verdict");
     }
-    if let Some((class, detail)) = fails.first() {
+    if let Some((class, detail)) = fails.first().or(deferred.first()) {
         cx.fail(class, detail);
         out.failed = true;
     }
